@@ -542,7 +542,110 @@ def k_refused_input(run, case):
         clean_home()
 
 
-KINDS = {"cell": k_cell, "exe": k_exe, "refused_input": k_refused_input}
+MIXED = {
+    "evo_ape --save_results --save_plot": ("ape", lambda c: ["tum", c["ref"], c["est"], "--save_results", "r.zip", "--save_plot", "p.png"], True),
+    "evo_rpe --save_plot --save_results --serialize_plot": ("rpe", lambda c: ["tum", c["ref"], c["est"], "--save_plot", "p.pdf", "--save_results", "r.zip", "--serialize_plot", "s.pkl"], True),
+    "evo_ape --serialize_plot --save_results": ("ape", lambda c: ["tum", c["ref"], c["est"], "--serialize_plot", "s.pkl", "--save_results", "r.zip"], True),
+    "evo_traj --save_table --save_as_tum": ("traj", lambda c: ["tum", c["est"], c["est2"], "--save_table", "t.csv", "--save_as_tum"], False),
+    "evo_traj --save_as_tum --save_as_kitti --save_table": ("traj", lambda c: ["tum", c["est"], "--save_as_kitti", "--save_table", "t.csv", "--save_as_tum"], False),
+    "evo_traj --save_plot --save_as_tum": ("traj", lambda c: ["tum", c["est"], c["est2"], "--save_plot", "p.png", "--save_as_tum"], True),
+    "evo_res --save_table --save_plot": ("res", lambda c: c["zips"] + ["--save_table", "t.csv", "--save_plot", "p.png"], True),
+}
+
+
+def k_mixed(run, case):
+    """
+    One command with several outputs whose targets all exist, the questions answered differently
+    (decided by the file a question names, so neither the order nor the number of questions
+    matters): exactly the targets confirmed with 'y' are replaced, every other one stays
+    byte-identical - a confirmation given for one file is no confirmation for another one.
+    """
+    name = case["scenario"]
+    tool, argv_fn, plot = MIXED[name]
+    work = os.path.join(os.environ.get("VMON_WORK", "."), "c17m_%d" % case["rs"][-1])
+    os.makedirs(work, exist_ok=True)
+    try:
+        ind, arr, est = make_inputs(work)
+        ctx = {"ref": os.path.join(ind, "ref.txt"), "est": os.path.join(ind, "est.txt"), "est2": os.path.join(ind, "est2.txt")}
+        if tool == "res":
+            ctx["zips"] = make_res_zips(work, ind)
+        argv = argv_fn(ctx)
+        outA = os.path.join(work, "A")
+        os.makedirs(outA)
+        rA = cli.run_cli(tool, argv + ["--no_warnings"], cwd=outA)
+        OUT = sorted(fsmon.digest_dir(outA))
+        if plot:
+            import matplotlib.pyplot as plt
+            plt.close("all")
+        if not run.check(rA.ok and len(OUT) >= 2, "scenario produces several outputs", case,
+                         "%s did not produce its outputs: %r" % (name, rA)):
+            return
+        rng = run.rng(case)
+        outB = os.path.join(work, "B")
+        os.makedirs(outB)
+        for f in OUT:
+            open(os.path.join(outB, f), "wb").write(b"OLD CONTENT of " + f.encode() + b"\n" * 3)
+        pick = case.get("pick", "random")
+        if pick == "first":
+            yes = {OUT[0]}
+        elif pick == "last":
+            yes = {OUT[-1]}
+        elif pick == "all-but-one":
+            yes = set(OUT) - {OUT[int(rng.integers(len(OUT)))]}
+        else:
+            yes = {f for f in OUT if rng.random() < .5}
+        other = ["n", "", "yes", "Y", "<EOF>"][int(rng.integers(4 if case.get("noeof", True) else 5))]
+        asked = []
+
+        def decide(prompt):
+            # the target a question is about: the argument of evo's check_and_confirm_overwrite()
+            # up the stack (its question is logged, not part of the prompt), else a name in the prompt
+            import sys as _sys
+            subject, fr = prompt, _sys._getframe(1)
+            while fr is not None:
+                if fr.f_code.co_name == "check_and_confirm_overwrite" and "file_path" in fr.f_locals:
+                    subject = str(fr.f_locals["file_path"])
+                    break
+                fr = fr.f_back
+            named = [f for f in OUT if os.path.basename(f) in subject]
+            named.sort(key=len)
+            asked.append(named[-1] if named else None)
+            return "y" if named and named[-1] in yes else other
+
+        before = fsmon.digest_dir(outB)
+        res = cli.run_cli(tool, argv, cwd=outB, answers=decide)
+        if plot:
+            import matplotlib.pyplot as plt
+            plt.close("all")
+        after = fsmon.digest_dir(outB)
+        run.seen(case, core.digest(name, sorted(yes), other), cls=["mixed answers: " + name, "confirmed %d of %d" % (len(yes), len(OUT)),
+                                                                 "other answer %r" % other],
+                 sample={"scenario": name, "outputs": OUT, "confirmed": sorted(yes), "other_answer": other,
+                         "questions_named": asked})
+        label = "%s [all of %s exist, 'y' only for %s, %r otherwise]" % (name, OUT, sorted(yes), other)
+        run.check(res.exc is None, "command does not crash", case, "%s crashed: %r" % (label, res.exc), key="crash")
+        if None in asked:
+            run.hit("questions that name none of the targets")
+            return  # (cannot be attributed: not judged)
+        changed = sorted(f for f in OUT if after.get(f) != before[f])
+        run.counters["mixed answers: only the targets confirmed with 'y' change"] += 1
+        wrong = sorted(set(changed) - yes)
+        if wrong:
+            run.violation("mixed:overwritten-without-y", "%s: %s were modified although their own question was "
+                          "not answered 'y' (questions asked about: %s)" % (label, wrong, asked), case)
+        # (a declined question may end the command: later targets are then never asked about)
+        kept = sorted((yes & set(asked)) - set(changed))
+        if kept:
+            run.violation("mixed:not-replaced-after-y", "%s: %s were confirmed with 'y' but not replaced" % (label, kept), case)
+        extra = sorted(set(after) - set(OUT))
+        run.check(not extra, "no unexpected files are written", case, "%s wrote unexpected files %s" % (label, extra),
+                  key="unexpected-files:" + name)
+    finally:
+        shutil.rmtree(work, ignore_errors=True)
+        clean_home()
+
+
+KINDS = {"cell": k_cell, "exe": k_exe, "refused_input": k_refused_input, "mixed": k_mixed}
 
 
 def install_prompt_bridge():
@@ -598,6 +701,11 @@ def main(run):
     refused = [{"via": v, "answer": a} for v in ("api", "cli") for a in ("n", "y", "", "<EOF>")]
     for i in run.mine(len(refused)):
         k_refused_input(run, run.case("refused_input", i, **refused[i]))
+    mixed = [{"scenario": n, "pick": pk} for n in MIXED for pk in ("first", "last", "all-but-one", "random")]
+    if run.tier == "thorough":
+        mixed = mixed * 4
+    for i in run.mine(len(mixed)):
+        k_mixed(run, run.case("mixed", i, **mixed[i]))
     run.extra["matrix_cells"] = len(cells)
     run.extra["scenarios"] = [s.name for s in S]
     if run.tier == "thorough":
@@ -609,5 +717,5 @@ def main(run):
              "destructive events on a target come after its confirmation",
              "confirmation is asked for an existing target", "no unexpected files are written",
              "repeated save to the same paths is confirmed again",
-             "real executable: 'y' replaces the targets",
+             "real executable: 'y' replaces the targets", "mixed answers: only the targets confirmed with 'y' change",
              "real executable: other answers leave the targets byte-identical")
